@@ -375,41 +375,17 @@ congruence<Number>::operator%(const congruence<Number> &o) const {
     return congruence<Number>::top();
   else {
     /*
-         aZ+b mod 0Z+b':
-             if b'|a then  (a/b')Z + b/b'
-             else          top
-    */
-    if (o.m_a == 0) {
-      if (m_a % o.m_b == 0) {
-        return congruence<Number>(Number(0), m_b % o.m_b);
-      } else {
-        return congruence<Number>(gcd(m_a, o.m_b), m_b);
-      }
-    }
-    /*
-          0Z+b mod a'Z+b':
-           if N<=0           then 0Z+b
-           if (b div N) == 1 then gcd(b',a')Z + b
-           if (b div N) >= 2 then N(b div N)Z  + b
+       The remainder has the sign of the dividend (operator% of
+       Number truncates) and x % y = x - y*(x/y). Thus:
 
-         where N = a'((b-b') div a') + b'
-    */
-    if (m_a == 0) {
-      Number n(o.m_a * (((m_b - o.m_b) / o.m_a) + o.m_b));
-      if (n <= 0) {
-        return congruence<Number>(m_a, m_b);
-      } else if (m_b == n) {
-        return congruence<Number>(gcd(o.m_b, o.m_a), m_b);
-      } else if ((m_b / n) >= 2) {
-        return congruence<Number>(m_b, m_b);
-      } else {
-        CRAB_ERROR("unreachable");
-      }
-    }
+         0Z+b mod 0Z+b'  = 0Z + (b % b')
+         aZ+b mod a'Z+b' = gcd(a,a',b')Z + b
 
-    /*
-      general case: no singleton
+       because gcd(a',b') divides every divisor y in a'Z+b'.
     */
+    if (m_a == 0 && o.m_a == 0) {
+      return congruence<Number>(m_b % o.m_b);
+    }
     return congruence<Number>(gcd(m_a, o.m_a, o.m_b), m_b);
   }
 }
